@@ -235,6 +235,8 @@ func runC42(run *mon.Run, thorough bool) {
 			}
 		}
 	}
+	// view changes: chains holding magic blocks with different sharder sets, rounds around the view-change offset (c42vc.go)
+	runC42ViewChange(run, w, rnd.Fork("view-change"), thorough)
 }
 
 // c42Construction turns a magic block whose sharder pool was built with node.NewNode + Pool.AddNode into the magic block the
